@@ -1,6 +1,7 @@
 import AdaVerif.Lemmas.ParseInv
 import AdaVerif.Lemmas.Guard
 import AdaVerif.Lemmas.AggSetters
+import AdaVerif.Lemmas.UrlSetters
 /-
 C03 — Setters implement the Standard's API setters and fail atomically.
 
@@ -167,12 +168,59 @@ theorem aggregator_set_protocol_end_to_end (L : Nat) (u : Url) (s : Bytes) (hinv
     · exact h.1.1.1
   exact AdaVerif.Lemmas.AggL.setProtocolCore_end_to_end L u s (AdaVerif.Lemmas.AggL.credOk_of_recInv u hinv) hsch hfile
 
+/-! ### end to end for `ada::url` (component setters)
+
+`Model/UrlSetters.lean` transcribes `url::set_username / set_password / set_port` (with `url::parse_port`),
+`set_hash / set_search` (with `strip_trailing_spaces_from_opaque_path`) and `set_pathname` (with `url::parse_path`
+and `helpers::parse_prepared_path`): precondition, processing, assignment, `get_href_size()` against the limit,
+restore.  `recOf u` is the `ada::url` object holding the Standard's record `u`.  For every record satisfying the
+invariants of C19, every value and every limit the C++ setter yields the object holding the Standard's setter
+result when it fits the limit - and otherwise leaves the object as it was and reports failure. -/
+
+open AdaVerif.Model.UrlRec AdaVerif.Lemmas.UR in
+theorem url_setters_end_to_end (L ty : Nat) (u : Url) (v : Bytes) (hinv : RecInv u = true) (hty : PP.TyOf u.scheme ty) :
+    setUsernameR L ty (recOf u) v =
+      (if u.cannotHaveUsernamePasswordPort then (recOf u, false)
+       else if getHrefSize (recOf (setUsername u v)) ≤ L then (recOf (setUsername u v), true) else (recOf u, false)) ∧
+    setPasswordR L ty (recOf u) v =
+      (if u.cannotHaveUsernamePasswordPort then (recOf u, false)
+       else if getHrefSize (recOf (setPassword u v)) ≤ L then (recOf (setPassword u v), true) else (recOf u, false)) ∧
+    setHashR L (recOf u) v =
+      (if v.isEmpty then recOf (setHash u v)
+       else if getHrefSize (recOf (setHash u v)) ≤ L then recOf (setHash u v) else recOf u) ∧
+    setSearchR L (recOf u) v =
+      (if v.isEmpty then recOf (setSearch u v)
+       else if getHrefSize (recOf (setSearch u v)) ≤ L then recOf (setSearch u v) else recOf u) ∧
+    setPathnameR L ty (recOf u) v =
+      (if u.isOpaque then (recOf u, false)
+       else if getHrefSize (recOf (setPathname u v)) ≤ L then (recOf (setPathname u v), true) else (recOf u, false)) :=
+  ⟨setUsernameR_eq L ty u v (AdaVerif.Lemmas.AggL.credOk_of_recInv u hinv) hty.file,
+   setPasswordR_eq L ty u v (AdaVerif.Lemmas.AggL.credOk_of_recInv u hinv) hty.file,
+   setHashR_eq L u v, setSearchR_eq L u v, setPathnameR_eq L ty u v hty⟩
+
+open AdaVerif.Model.UrlRec AdaVerif.Lemmas.UR in
+/-- ... and `url::set_port` with `url::parse_port` (`std::from_chars` range, default-port elision) -/
+theorem url_set_port_end_to_end (L ty : Nat) (u : Url) (v : Bytes) (hinv : RecInv u = true) (hty : PP.TyOf u.scheme ty) :
+    setPortR L ty ((defaultPort u.scheme).getD 0) (recOf u) v =
+      if u.cannotHaveUsernamePasswordPort then (recOf u, false)
+      else if v.isEmpty then (recOf (setPort u v), true)
+      else match stripTN v with
+        | [] => (recOf u, true)
+        | c :: _ =>
+          if !isAsciiDigit c then (recOf u, false)
+          else if parseRadix 10 ((stripTN v).takeWhile isAsciiDigit) > 65535 then (recOf u, false)
+          else if getHrefSize (recOf (setPort u v)) ≤ L then (recOf (setPort u v), true)
+          else (recOf u, false) :=
+  setPortR_eq L ty u v (AdaVerif.Lemmas.AggL.credOk_of_recInv u hinv) hty.file
+
 /-! ### non-vacuity -/
 def noIdna : Idna := ⟨fun _ => none⟩
 example : (setPort { scheme := bHttps, host := some (.domain (ofStr "h")), path := [[]] } (ofStr "8080")).port = some 8080 := by
   decide +kernel
 example : (setPort { scheme := bHttps, host := some (.domain (ofStr "h")), path := [[]] } (ofStr "443")).port = none := by
   decide +kernel
+example : (AdaVerif.Model.UrlRec.setPathnameR 100 2 (AdaVerif.Lemmas.UR.recOf { scheme := bHttps, host := some (.domain (ofStr "h")), path := [[]] })
+    (ofStr "/a/../b")).1.path = ofStr "/b" := by decide +kernel
 example : (guarded List.length 3 (fun (s : List Nat) => some (0 :: s)) [1, 2, 3]) = ([1, 2, 3], false) := by decide
 
 end AdaVerif.Props.C03
